@@ -15,7 +15,7 @@ terms (E1) are extracted on every path and checked:
 import ast
 import re
 
-from sa.interp import Interp, Scenario, Sym, Const, Bytes, Enum, render, render_items, render_item, merge_consts
+from sa.interp import Interp, Scenario, Sym, Const, Bytes, Enum, render, render_items, render_item, merge_consts, lin_parse, lin_norm, lin_add, sl
 from sa.loader import AnalysisError, dotted
 from sa import codec, tables
 
@@ -120,9 +120,9 @@ def check_reader(rep, prog, c, pf):
         construct = '%s.parse' % c.name if pf.cls is c else '%s.parse (inherited by %s)' % (pf.cls.name, c.name)
         a = [p for p in problems if p[0] in ('consume-what-you-read', 'read-offset', 'unmodelled-del')]
         # one named exception: SubPackets.parse copies the whole hashed area out verbatim (C05) before parsing it field by field;
-        # that copy is a deliberate peek, not a field read
+        # that copy is a deliberate peek, not a field read: a read of [: 2 + <the two-octet count just read>] stored untransformed
         if c.name in ('SubPackets', 'UserAttributeSubPackets') and pf.cls.name == 'SubPackets':
-            a = [p for p in a if not ('SLICE(packet;;(2 + self.bytes_to_int(SLICE(packet;;2))))' in p[1] or '(self.bytes_to_int(SLICE(packet;;2)) + 2)' in p[1])]
+            a = [p for p in a if not _is_area_peek(p, buf, pf.params[0])]
         b = [p for p in problems if p[0] == 'alias-then-consume']
         rep.check(not a, 'C08.a', construct, a[0][1] if a else 'consumes what it reads',
                   'the reader reads octets it does not consume (or consumes fewer than it read): the next field starts at the wrong offset'
@@ -130,63 +130,62 @@ def check_reader(rep, prog, c, pf):
         rep.check(not b, 'C08.b', construct, b[0][1] if b else 'no consumption after aliasing',
                   'the input buffer was stored without copying and is consumed afterwards: the stored field loses octets' if b else 'ok',
                   where='%s:%d' % (pf.module.relpath, b[0][2] if b else pf.node.lineno), scenario=scen, found=[p[1] for p in b])
-        check_remainder(rep, c, pf, reads, scen, construct)
+        check_remainder(rep, c, pf, reads, scen, construct, s)
 
 
-def _linear(text):
-    """Parse `self.header.length - k` / `(self.header.length - (6 + x))` into (coefficient of header.length, constant, symbols)."""
-    t = text.replace(' ', '')
-    while t.startswith('(') and t.endswith(')') and _bal(t[1:-1]):
-        t = t[1:-1]
-    if t == 'self.header.length':
-        return 0, []
-    m = re.match(r'^self\.header\.length-(.+)$', t)
-    if not m:
+def _is_area_peek(problem, buf, p0):
+    r = getattr(problem, 'read', None)
+    if r is None or (r.post is not None and r.post != r.text):
+        return False
+    rng = codec.slice_of(r.text, buf)
+    count = '%s.bytes_to_int(%s)' % (p0, sl(buf, ('', 2)))
+    return rng is not None and rng[0] in ('', '0') and r.text == sl(buf, ('', lin_add('2', count)))
+
+
+def _remainder(text, length):
+    """`length - k - x ...` as an integer-linear form: (constant subtracted, {symbol: coefficient subtracted}); None when the
+    text is not `length` minus something."""
+    terms, c = lin_parse(text)
+    if terms.get(length) != 1:
         return None
-    rest = m.group(1)
-    while rest.startswith('(') and rest.endswith(')') and _bal(rest[1:-1]):
-        rest = rest[1:-1]
-    const, syms = 0, []
-    for part in _split_plus(rest):
-        if re.match(r'^\d+$', part):
-            const += int(part)
-        else:
-            syms.append(part)
-    return const, syms
+    return -c, {k: -v for k, v in terms.items() if k != length}
 
 
-def _bal(s):
-    d = 0
-    for ch in s:
-        if ch in '([{':
-            d += 1
-        elif ch in ')]}':
-            d -= 1
-            if d < 0:
-                return False
-    return d == 0
+def _lin_sum(texts):
+    terms, c = {}, 0
+    for t in texts:
+        tt, cc = lin_parse(t)
+        c += cc
+        for k, v in tt.items():
+            terms[k] = terms.get(k, 0) + v
+    return c, {k: v for k, v in terms.items() if v != 0}
 
 
-def _split_plus(t):
-    parts, depth, cur = [], 0, ''
-    for ch in t:
-        if ch in '([{':
-            depth += 1
-        elif ch in ')]}':
-            depth -= 1
-        if ch == '+' and depth == 0:
-            parts.append(cur)
-            cur = ''
-        else:
-            cur += ch
-    parts.append(cur)
-    return parts
+def _versioned_fact(s, p0):
+    """The path took the `header has a version attribute` side of Opaque.parse (decided from the fact skeleton, not its text)."""
+    def atom(sk):
+        if not sk:
+            return False
+        if sk[0] == 'call' and sk[1] in ('hasattr', 'getattr') and len(sk[2]) >= 2 and sk[2][0] == '%s.header' % p0 and sk[2][1] == "'version'":
+            return True
+        if sk[0] == 'cmp' and 'getattr(%s.header, \'version\'' % p0 in sk[2] + sk[3] and 'None' in (sk[2], sk[3]) and sk[1] in ('is not', '!='):
+            return True
+        return False
+    for f in s.facts:
+        sk = f[2] if len(f) > 2 else None
+        if atom(sk) and f[1] is True:
+            return True
+        if sk and sk[0] == 'not' and atom(sk[1]) and f[1] is False:
+            return True
+    return False
 
 
-def check_remainder(rep, c, pf, reads, scen, construct):
+def check_remainder(rep, c, pf, reads, scen, construct, s=None):
     """C08.d on one reader path."""
+    p0 = pf.params[0]
+    length = '%s.header.length' % p0
     base = base_offset(c)
-    if c.name == 'Opaque' and "hasattr(self.header, 'version')=True" in scen:
+    if c.name == 'Opaque' and s is not None and _versioned_fact(s, p0):
         base = 1          # the version octet of a versioned header was already read by the dispatcher
     fixed_before = 0
     sym_before = []
@@ -199,19 +198,20 @@ def check_remainder(rep, c, pf, reads, scen, construct):
                 if not seen_var:
                     fixed_before += wi
                 continue
-            lin = _linear(w)
+            lin = _remainder(w, length)
             if lin is None:
                 # a variable width that is not a remainder (e.g. a length read from the data): it precedes a later remainder symbolically
-                sym_before.append(w.replace(' ', ''))
+                sym_before.append(w)
                 continue
             const, syms = lin
             want = base + fixed_before
+            wc, wsyms = _lin_sum(sym_before)
             # symbolic widths consumed before must appear in the subtrahend
-            ok = const == want and sorted(s.replace(' ', '') for s in syms) == sorted(sym_before) and not seen_var
+            ok = const == want + wc and syms == wsyms and not seen_var
             rep.check(ok, 'C08.d', construct, 'remainder %s after %d header + %d fixed octets%s' % (w, base, fixed_before, (' + ' + ' + '.join(sym_before)) if sym_before else ''),
                       'the last field is read as header.length minus a constant that does not equal the octets already consumed: '
                       'the reader takes too many or too few octets and the following packet is mis-framed', where='%s:%d' % (pf.module.relpath, r.line),
-                      expected='self.header.length - %s' % ' - '.join([str(want)] + sym_before) if (want or sym_before) else 'self.header.length',
+                      expected='%s - %s' % (length, ' - '.join([str(want)] + sym_before)) if (want or sym_before) else length,
                       found=w, scenario=scen)
             seen_var = True
         elif r.kind == 'delegate' and not (r.via or '').startswith('super:'):
@@ -346,18 +346,29 @@ def check_field_order(rep, prog, classes):
                 decl = None
         if not decl:
             continue
-        order = []
-        for n in ast.walk(pf.node):
-            pass
-        for st in ast.walk(pf.node):
-            if isinstance(st, ast.Assign) and isinstance(st.targets[0], ast.Attribute) and isinstance(st.value, ast.Call) and \
-                    dotted(st.value.func) in ('MPI', 'ECPoint') and ast.unparse(st.targets[0].value) == 'self':
-                if st.targets[0].attr not in order:
-                    order.append(st.targets[0].attr)
-        order_decl = [x for x in order if x in decl]
-        rep.check(order_decl == decl, 'C08.c', '%s.parse' % c.name, 'MPI read order %s, declared/written order %s' % (order, decl),
+        # the order in which each path of the reader fills the declared integers (interpreter stores of MPI(buf) / ECPoint(buf),
+        # whatever the statements look like); every path must follow the declared order and together they must cover it
+        buf = pf.params[1] if len(pf.params) > 1 else 'packet'
+        p0 = pf.params[0]
+        seen = []
+        orders = []
+        for s in reader_paths(prog, c, pf):
+            if s.raised is not None:
+                continue
+            order = []
+            for pth, val, line, _ in s.stores:
+                if pth.startswith(p0 + '.') and '.' not in pth[len(p0) + 1:] and re.match(r'^(MPI|ECPoint)\(%s\)$' % re.escape(buf), val):
+                    if pth[len(p0) + 1:] not in order:
+                        order.append(pth[len(p0) + 1:])
+            orders.append(order)
+            for x in order:
+                if x in decl and x not in seen:
+                    seen.append(x)
+        bad = [o for o in orders if [x for x in o if x in decl] != [d for d in decl if d in o]]
+        missing = [d for d in decl if d not in seen]
+        rep.check(not bad and not missing, 'C08.c', '%s.parse' % c.name, 'MPI read order %s, declared/written order %s' % (bad[0] if bad else orders[:1], decl),
                   'the integers are written in the declared field order; the reader must fill them in the same order', where=pf.where,
-                  expected=decl, found=order)
+                  expected=decl, found=bad[0] if bad else ('never read: %s' % missing if missing else orders[:1]))
 
 
 def _dedupe(seq):
@@ -377,63 +388,247 @@ def _subseq(a, b):
 
 
 # ------------------------------------------------------------------------------------------------ C08.f
-def check_text_codecs(rep, prog):
-    n = 0
-    for mn in ('pgpy.packet.subpackets.signature', 'pgpy.packet.packets'):
-        m = prog.module(mn)
-        for c in m.classes.values():
-            wf = c.methods.get('__bytearray__')
-            if wf is None:
-                continue
-            wsrc = ast.unparse(wf.node)
-            for pname, prop in c.props.items():
-                sb = prop.setters.get('bytearray')
-                if sb is None:
-                    continue
-                ssrc = ast.unparse(sb.node)
-                rc = None
-                m1 = re.search(r"val\.decode\((?:'([^']*)')?\)", ssrc)
-                if m1:
-                    rc = (m1.group(1) or 'utf-8')
-                elif '_decode_text(val)' in ssrc:
-                    rc = _decode_text_primary(prog, c)
-                if rc is None:
-                    continue
-                m2 = re.search(r"self\.%s\.encode\((?:'([^']*)')?\)" % pname, wsrc)
-                if not m2:
-                    continue
-                wc = m2.group(1) or 'utf-8'
-                n += 1
-                rep.check(_norm_codec(wc) == _norm_codec(rc), 'C08.f', '%s.%s' % (c.name, pname), 'read %s, written %s' % (rc, wc),
-                          'text read with one codec and written with another changes the octets on every parse/serialise pass', where=wf.where,
-                          expected=rc, found=wc, scenario=c.name)
-    # LiteralData.filename and UserID.uid (plain attributes)
-    lit = prog.cls('pgpy.packet.packets', 'LiteralData')
-    ps, ws = ast.unparse(lit.methods['parse'].node), ast.unparse(lit.methods['__bytearray__'].node)
-    r = re.search(r"self\.filename = packet\[:fnl\]\.decode\((?:'([^']*)')?\)", ps)
-    w = re.search(r"self\.filename\.encode\((?:'([^']*)')?\)", ws)
-    rep.check(bool(r and w) and _norm_codec(r.group(1) or 'utf-8') == _norm_codec(w.group(1) or 'utf-8'), 'C08.f', 'LiteralData.filename',
-              'read %s, written %s' % (r.group(1) if r else None, w.group(1) if w else None), 'the file name is written with the codec it is read with',
-              where=lit.where)
-    uid = prog.cls('pgpy.packet.packets', 'UserID')
-    ps, ws = ast.unparse(uid.methods['parse'].node), ast.unparse(uid.methods['__bytearray__'].node)
-    ok = "uid_bytes.decode('utf-8')" in ps and "uid_bytes.decode('charmap')" in ps and 'self._encoding_fallback = True' in ps and \
-        "'utf-8' if not self._encoding_fallback else 'charmap'" in ws and 'self.uid.encode(textenc)' in ws
-    rep.check(ok, 'C08.f', 'UserID.uid', 'utf-8 with remembered charmap fallback', 'a user id that is not UTF-8 is written back with the fallback codec it was read with',
-              where=uid.where)
-
-
-def _decode_text_primary(prog, c):
-    f = c.find_method('_decode_text')
-    if f is None:
-        return None
-    src = ast.unparse(f.node)
-    m = re.search(r"try:\s*return val\.decode\('([^']*)'\)", src)
-    return m.group(1) if m else None
+# Text fields, decided on interpreter values: the reader side is every store of `<input octets>.decode(codec)` (or chr(octet), or a
+# helper that returns such a decode) into an attribute by `parse` / a bytes setter, one variant per path (the path through an
+# `except` handler is a fallback); the writer side is every `self.<attr>.encode(codec)` call of `__bytearray__`, run under each value
+# of the boolean attributes its paths test.  No source text is compared.
+CODEC_ALIASES = {'utf8': 'utf-8', 'u8': 'utf-8', 'latin1': 'latin-1', 'latin': 'latin-1', 'l1': 'latin-1', 'iso-8859-1': 'latin-1', 'iso8859-1': 'latin-1',
+                 '8859': 'latin-1', 'charmap': 'latin-1', 'us-ascii': 'ascii', '646': 'ascii'}
+ASCII_SAFE = {'utf-8', 'latin-1', 'ascii', 'cp1252'}
 
 
 def _norm_codec(x):
-    return (x or '').lower().replace('_', '-').replace('utf8', 'utf-8')
+    x = (x or '').lower().replace('_', '-')
+    return CODEC_ALIASES.get(x, x)
+
+
+def _calltext(ft, args, kw):
+    return '%s(%s)' % (ft, ', '.join(list(args) + ['%s=%s' % kv for kv in kw.items()]))
+
+
+def _codec_arg(args, kw, where):
+    """Codec named by the arguments of an encode / decode call event (default utf-8)."""
+    t = args[0] if args else kw.get('encoding')
+    if t is None:
+        return 'utf-8'
+    m = re.match(r"^'([^']*)'$", t)
+    if not m:
+        raise AnalysisError('text codec is not a literal on this path: %s (%s)' % (t, where))
+    return _norm_codec(m.group(1))
+
+
+def decoder_summary(prog, fi):
+    """[(codec, is_fallback)] when every returning path of `fi` returns <its data parameter>.decode(codec); else None."""
+    _SUMMARIES = prog.__dict__.setdefault('_c08_decoder_summaries', {})
+    key = fi.qualname
+    if key in _SUMMARIES:
+        return _SUMMARIES[key]
+    static = any(dotted(d) == 'staticmethod' for d in fi.node.decorator_list)
+    ps = fi.params if (static or fi.cls is None) else fi.params[1:]
+    out = None
+    if len(ps) == 1:
+        data = ps[0]
+        out = []
+        for s in Interp(prog, Scenario(inline=noinline)).run(fi):
+            if s.raised is not None and s.ret is None:
+                continue
+            hit = None
+            for ft, args, kw, line, node in s.calls:
+                if ft == data + '.decode' and s.ret is not None and render(s.ret) == _calltext(ft, args, kw):
+                    hit = _codec_arg(args, kw, fi.where)
+            if hit is None:
+                out = None
+                break
+            out.append((hit, any(f[0].startswith('except ') for f in s.facts)))
+    _SUMMARIES[key] = out
+    return out
+
+
+def _resolve_helper(prog, c, f, ft):
+    name = ft.split('.')[-1]
+    prefix = ft[:-(len(name) + 1)] if '.' in ft else ''
+    if name in ('decode', 'encode', 'bytes_to_int', 'int_to_bytes') or name.startswith('super:'):
+        return None
+    if prefix == '':
+        r = prog.lookup(f.module, name)
+        return r if hasattr(r, 'params') and hasattr(r, 'node') and getattr(r, 'cls', None) is None else None
+    if prefix == f.params[0]:
+        return c.find_method(name)
+    for k in prog.classes_by_name.get(prefix, []):
+        m = k.find_method(name)
+        if m is not None:
+            return m
+    return None
+
+
+def _const_flag(val):
+    return isinstance(val, Const) and (isinstance(val.value, bool) or val.value is None)
+
+
+def reader_text_fields(prog, c):
+    """field name -> [variant]; variant = dict(codec, fallback, flags, hexsafe, where).  One variant per (path, decode) that reaches an
+    attribute of the object."""
+    fns = []
+    if 'parse' in c.methods:
+        fns.append(c.methods['parse'])
+    for pr in c.props.values():
+        for tn in ('bytearray', 'bytes'):
+            f = pr.setters.get(tn)
+            if f is not None and f not in fns:
+                fns.append(f)
+    out = {}
+    for f in fns:
+        if len(f.params) < 2:
+            continue
+        p0, data = f.params[0], f.params[1]
+        sc = Scenario(inline=noinline, forward_stores=False, model_del=False, self_cls=c)
+        for s in Interp(prog, sc).run(f):
+            if s.raised is not None and not s.stores:
+                continue
+            decs = []
+            for ft, args, kw, line, node in s.calls:
+                text = _calltext(ft, args, kw)
+                if ft.endswith('.decode'):
+                    decs.append((text, ft[:-len('.decode')], (args, kw)))
+                elif ft == 'chr' and len(args) == 1 and not kw:
+                    decs.append((text, args[0], [('latin-1', False)]))        # chr(octet) is the latin-1 reading of one octet
+                elif args:
+                    h = _resolve_helper(prog, c, f, ft)
+                    summ = decoder_summary(prog, h) if h is not None else None
+                    if summ:
+                        decs.append((text, args[0], summ))
+            if not decs:
+                continue
+            flags = {}
+            for pth, vt, line, val in s.stores:
+                if pth.startswith(p0 + '.') and '.' not in pth[len(p0) + 1:] and _const_flag(val):
+                    flags[pth[len(p0) + 1:]] = val.value
+            in_handler = any(fc[0].startswith('except ') for fc in s.facts)
+            for pth, vt, line, val in s.stores:
+                if not (pth.startswith(p0 + '.') and '.' not in pth[len(p0) + 1:]):
+                    continue
+                for text, recv, variants in decs:
+                    if text in vt and codec.mentions(recv, data):
+                        if isinstance(variants, tuple):
+                            variants = [(_codec_arg(variants[0], variants[1], f.where), False)]
+                        for cd, fb in variants:
+                            out.setdefault(pth[len(p0) + 1:].lstrip('_'), []).append(
+                                {'codec': cd, 'fallback': fb or in_handler, 'flags': dict(flags), 'hexsafe': 'hexlify(' in recv,
+                                 'where': '%s:%d' % (f.module.relpath, line), 'fn': f.qualname})
+    return out
+
+
+def writer_text_fields(prog, c, wf, bind=None):
+    """field name -> set of codecs `self.<field>.encode(codec)` is called with on the paths of the writer under `bind`;
+    also the boolean attributes of the object the paths branch on."""
+    p0 = wf.params[0]
+    sc = Scenario(inline=noinline, self_cls=c, bind={'%s.%s' % (p0, k): Const(v) for k, v in (bind or {}).items()})
+    enc, atoms = {}, set()
+
+    def walk(sk):
+        if not sk:
+            return
+        if sk[0] == 'not':
+            walk(sk[1])
+        elif sk[0] in ('and', 'or'):
+            for x in sk[1]:
+                walk(x)
+        elif sk[0] == 'expr':
+            m = re.match(r'^%s\.([A-Za-z_][A-Za-z0-9_]*)$' % re.escape(p0), sk[1])
+            if m:
+                atoms.add(m.group(1))
+        elif sk[0] == 'cmp' and sk[1] in ('==', '!=', 'is', 'is not'):
+            for a, b in ((sk[2], sk[3]), (sk[3], sk[2])):
+                m = re.match(r'^%s\.([A-Za-z_][A-Za-z0-9_]*)$' % re.escape(p0), a)
+                if m and b in ('True', 'False'):
+                    atoms.add(m.group(1))
+    for s in Interp(prog, sc).run(wf):
+        if s.raised is not None and s.ret is None:
+            continue
+        for fc in s.facts:
+            walk(fc[2] if len(fc) > 2 else None)
+        for ft, args, kw, line, node in s.calls:
+            if ft.endswith('.encode') and ft.startswith(p0 + '.') and '.' not in ft[len(p0) + 1:-len('.encode')]:
+                enc.setdefault(ft[len(p0) + 1:-len('.encode')].lstrip('_'), set()).add(_codec_arg(args, kw, wf.where))
+    return enc, atoms
+
+
+def _init_flags(prog, c):
+    f = c.find_method('__init__')
+    out = {}
+    if f is None or not f.params:
+        return out
+    p0 = f.params[0]
+    for s in Interp(prog, Scenario(inline=noinline, self_cls=c)).run(f):
+        for pth, vt, line, val in s.stores:
+            if pth.startswith(p0 + '.') and '.' not in pth[len(p0) + 1:] and _const_flag(val):
+                out[pth[len(p0) + 1:]] = val.value
+    return out
+
+
+def _same_codec(rc, wcs, hexsafe):
+    if hexsafe:
+        return bool(wcs) and rc in ASCII_SAFE and all(w in ASCII_SAFE for w in wcs)
+    return wcs == {rc}
+
+
+def check_text_codecs(rep, prog):
+    import itertools
+    for mn in MODS:
+        m = prog.module(mn)
+        for c in m.classes.values():
+            wf = c.find_method('__bytearray__')
+            if wf is None or wf.cls.name == 'PGPObject':
+                continue
+            rfields = reader_text_fields(prog, c)
+            if not rfields and not c.defines('__bytearray__'):
+                continue
+            wenc, atoms = writer_text_fields(prog, c, wf)
+            for fld in sorted(set(wenc) - set(rfields)):
+                if c.defines('__bytearray__') and (c.defines('parse') or c.props):
+                    raise AnalysisError('%s.__bytearray__ encodes text field %s but no decode into it was recognised in parse / the bytes setters' % (c.name, fld))
+            for fld in sorted(set(rfields) & set(wenc)):
+                variants = rfields[fld]
+                construct = '%s.%s' % (c.name, fld)
+                init = _init_flags(prog, c)
+                # the boolean attributes that can distinguish object states: those the writer branches on and those the reader sets on
+                # some paths of this field only (a remembered fallback)
+                rflags = set(g for v in variants for g in v['flags'] if any(w['flags'].get(g, init.get(g, False)) != v['flags'][g] for w in variants))
+                flags = sorted(a for a in (atoms | rflags) if a != fld and a != '_' + fld)
+                if len(flags) > 3:
+                    raise AnalysisError('%s.__bytearray__ branches on %d boolean attributes' % (c.name, len(flags)))
+
+                def state(v):
+                    return tuple(bool(v['flags'].get(g, init.get(g, False))) for g in flags)
+                wtab = {}
+                for combo in itertools.product((False, True), repeat=len(flags)):
+                    wtab[combo] = writer_text_fields(prog, c, wf, dict(zip(flags, combo)))[0].get(fld, set())
+                primaries = [v for v in variants if not v['fallback']]
+                if not primaries:
+                    raise AnalysisError('%s: every decode of %s sits in an exception handler' % (c.name, fld))
+                pstates = set(state(v) for v in primaries)
+                for v in variants:
+                    st = state(v)
+                    scen = '%s%s' % ('fallback ' if v['fallback'] else '', ', '.join('%s=%s' % kv for kv in zip(flags, st)) or 'read in %s' % v['fn'])
+                    if v['fallback'] and st in pstates:
+                        # a fallback the object does not remember: foreign octets are normalised once to the primary codec (fixed point
+                        # afterwards); the primary variant carries the comparison
+                        rep.ok('C08.f', construct, 'unremembered fallback %s normalises to the primary codec' % v['codec'], scenario=scen, nontrivial=False)
+                        continue
+                    wcs = wtab[st]
+                    rep.check(_same_codec(v['codec'], wcs, v['hexsafe']), 'C08.f', construct, 'read %s, written %s (%s)' % (v['codec'], sorted(wcs), scen),
+                              'text read with one codec and written with another changes the octets on every parse/serialise pass', where=v['where'],
+                              expected=v['codec'], found=sorted(wcs), scenario=scen)
+                # every codec arm of the writer must be reachable from a reader path that sets the attributes it tests
+                rstates = set(state(v) for v in variants)
+                for st in sorted(wtab):
+                    if any(wtab[st] != wtab[p] for p in pstates) and st not in rstates:
+                        rep.violation('C08.f', construct, 'writer uses %s when %s, but no reader path leaves the object in that state' %
+                                      (sorted(wtab[st]), ', '.join('%s=%s' % kv for kv in zip(flags, st))),
+                                      'the writer chooses the codec from an attribute the reader never sets on the path that used that codec: '
+                                      'octets read with the fallback codec are written with the primary one', where=wf.where,
+                                      expected='a reader path storing %s' % ', '.join('%s=%s' % kv for kv in zip(flags, st)), found=sorted(set(rstates)),
+                                      scenario=', '.join('%s=%s' % kv for kv in zip(flags, st)))
 
 
 # ------------------------------------------------------------------------------------------------ C08.g
@@ -524,22 +719,48 @@ def check_update_hlen(rep, prog):
                   expected='%s.update_hlen() after the last change' % obj, found='changes at %s, update_hlen at %s' % (sorted(set(stores))[-3:], updates))
 
 
+def _hlen_formula(rep, prog, f, const, label, why):
+    """header.length := len(serialised object) - len(header) + const, compared as an integer-linear form of the interpreter value."""
+    p0 = f.params[0]
+    want = ({'len(%s.__bytearray__())' % p0: 1, 'len(%s.header)' % p0: -1}, const)
+    n = 0
+    for s in Interp(prog, Scenario(inline=noinline)).run(f):
+        if s.raised is not None:
+            continue
+        v = [val for pth, val, l, _ in s.stores if pth == '%s.header.length' % p0]
+        n += 1
+        rep.check(len(v) == 1 and lin_parse(v[0].replace('.__bytes__()', '.__bytearray__()')) == want, 'C08.h', label, '%s' % v, why, where=f.where,
+                  expected=lin_norm('len(%s.__bytearray__()) - len(%s.header) + %d' % (p0, p0, const)), found=v)
+    if not n:
+        raise AnalysisError('%s has no returning path' % label)
+
+
 def check_update_hlen_defs(rep, prog):
-    p = prog.method('pgpy.packet.types', 'Packet', 'update_hlen')
-    for s in Interp(prog, Scenario(inline=noinline)).run(p):
-        v = [val for pth, val, l, _ in s.stores if pth == 'self.header.length']
-        rep.check(v == ['(len(self.__bytearray__()) - len(self.header))'], 'C08.h', 'Packet.update_hlen', '%s' % v,
-                  'header length = serialised length minus the header (tag + length octets)', where=p.where)
-    sp = prog.method('pgpy.packet.subpackets.types', 'SubPacket', 'update_hlen')
-    for s in Interp(prog, Scenario(inline=noinline)).run(sp):
-        v = [val for pth, val, l, _ in s.stores if pth == 'self.header.length']
-        rep.check(v == ['((len(self.__bytearray__()) - len(self.header)) + 1)'], 'C08.h', 'SubPacket.update_hlen', '%s' % v,
-                  'subpacket length counts the type octet', where=sp.where)
-    for cls, inner in (('SignatureV4', 'self.subpackets.update_hlen()'), ('UserAttribute', 'self.subpackets.update_hlen()')):
-        f = prog.method('pgpy.packet.packets', cls, 'update_hlen')
-        src = ast.unparse(f.node)
-        rep.check(inner in src and 'super(%s, self).update_hlen()' % cls in src and src.index(inner) < src.index('super('), 'C08.h', '%s.update_hlen' % cls,
-                  'inner lengths first', 'nested subpacket lengths are recomputed before the packet length', where=f.where)
+    _hlen_formula(rep, prog, prog.method('pgpy.packet.types', 'Packet', 'update_hlen'), 0, 'Packet.update_hlen',
+                  'header length = serialised length minus the header (tag + length octets)')
+    _hlen_formula(rep, prog, prog.method('pgpy.packet.subpackets.types', 'SubPacket', 'update_hlen'), 1, 'SubPacket.update_hlen',
+                  'subpacket length counts the type octet')
+    # packets that nest length-carrying containers: on every path the inner lengths are recomputed first, then the packet's own
+    # (order of the two call events, whatever the super call is spelled like)
+    pk = prog.module('pgpy.packet.packets')
+    nested = [c for c in pk.classes.values() if c.defines('update_hlen')]
+    for want in ('SignatureV4', 'UserAttribute'):
+        if want not in [c.name for c in nested]:
+            raise AnalysisError('%s.update_hlen not found' % want)
+    for c in nested:
+        f = c.methods['update_hlen']
+        p0 = f.params[0]
+        for s in Interp(prog, Scenario(inline=noinline, self_cls=c)).run(f):
+            if s.raised is not None:
+                continue
+            calls = [e[1] for e in s.events if e[0] == 'call' and e[1].split('.')[-1] == 'update_hlen']
+            own = [i for i, ft in enumerate(calls) if ft.startswith('super:') or ft in ('Packet.update_hlen', 'VersionedPacket.update_hlen')]
+            inner = [i for i, ft in enumerate(calls) if ft.startswith(p0 + '.') and ft.count('.') >= 2]
+            ok = len(own) == 1 and bool(inner) and max(inner) < own[0]
+            rep.check(ok, 'C08.h', '%s.update_hlen' % c.name, 'calls in order: %s' % calls,
+                      'nested subpacket lengths are recomputed before the packet length (the packet length is computed from the serialised body)',
+                      where=f.where, expected='<container>.update_hlen() then the inherited update_hlen()', found=calls)
     ln = prog.method('pgpy.packet.types', 'Header', '__len__')
     for s in Interp(prog, Scenario(inline=noinline)).run(ln):
-        rep.check(render(s.ret) == '(1 + self.llen)', 'C08.h', 'packet Header.__len__', render(s.ret), 'header length = tag octet + length octets', where=ln.where)
+        rep.check(s.ret is not None and lin_parse(render(s.ret)) == ({'%s.llen' % ln.params[0]: 1}, 1), 'C08.h', 'packet Header.__len__', render(s.ret),
+                  'header length = tag octet + length octets', where=ln.where)
